@@ -1,5 +1,9 @@
 // ---- U00: what the model types need from elsewhere ----
-use std::collections::{HashMap, HashSet};
 #[derive(PartialEq, Eq, Structural, Clone, Copy)] pub struct BeneficiaryReadVersion { pub o: u64 }
 // derive(Clone) of a non-Copy type carries no Verus spec: inherent clone (verified, structural) shadows it
 impl TxVersion { fn clone(&self) -> (r: Self) ensures r == *self { TxVersion { txid: self.txid, incarnation: self.incarnation } } }
+#[verifier::external_body] proof fn axiom_key_models()
+    ensures vstd::std_specs::hash::obeys_key_model::<LocationAndType>(),
+            vstd::std_specs::hash::obeys_key_model::<Address>(),
+            vstd::std_specs::hash::obeys_key_model::<usize>(),
+{}
